@@ -70,6 +70,7 @@ type c12Descs struct {
 	// shared converter instances
 	t2j, t2jHTTP            *t2j.BinaryConv
 	j2t, j2tStrict, j2tHTTP *j2t.BinaryConv
+	j2tHTTPTb               *j2t.BinaryConv // + ReadHttpValueFallback + TracebackRequredOrRootFields
 	p2j                     *p2j.BinaryConv
 	j2p                     *j2p.BinaryConv
 }
@@ -105,6 +106,8 @@ func (f *c12Fix) parse() (*c12Descs, error) {
 	c := j2t.NewBinaryConv(mk(conv.Options{WriteDefaultField: true}))
 	e := j2t.NewBinaryConv(mk(conv.Options{DisallowUnknownField: true}))
 	g := j2t.NewBinaryConv(mk(conv.Options{EnableHttpMapping: true, WriteDefaultField: true}))
+	tb := j2t.NewBinaryConv(mk(conv.Options{EnableHttpMapping: true, ReadHttpValueFallback: true, TracebackRequredOrRootFields: true}))
+	d.j2tHTTPTb = &tb
 	x := p2j.NewBinaryConv(mk(conv.Options{}))
 	y := j2p.NewBinaryConv(mk(conv.Options{}))
 	d.t2j, d.t2jHTTP, d.j2t, d.j2tStrict, d.j2tHTTP, d.p2j, d.j2p = &a, &b, &c, &e, &g, &x, &y
@@ -291,6 +294,16 @@ func (f *c12Fix) ops() []c12Op {
 			// no query: the required mapped fields Q and RQ have no source => error expected
 			c := context.WithValue(ctx, conv.CtxKeyHTTPRequest, c12HTTPReq(f.hj, false))
 			return resStr(d.j2tHTTP.Do(c, d.hreq, f.hj))
+		}},
+		{"j2t.http-traceback-body", func(d *c12Descs) (string, []byte) {
+			c := context.WithValue(ctx, conv.CtxKeyHTTPRequest, c12HTTPReq(f.hj, true))
+			return resStr(d.j2tHTTPTb.Do(c, d.hreq, f.hj))
+		}},
+		{"j2t.http-traceback-missing-required", func(d *c12Descs) (string, []byte) {
+			// the required mapped fields have no source and are not in the body: the call fails after the native
+			// scanner has handed the unset fields back to Go
+			c := context.WithValue(ctx, conv.CtxKeyHTTPRequest, c12HTTPReq(f.hj, false))
+			return resStr(d.j2tHTTPTb.Do(c, d.hreq, f.hj))
 		}},
 		{"j2t.plain-on-http-desc", func(d *c12Descs) (string, []byte) {
 			// same descriptor without mapping: required fields must come from the body (absent => error)
